@@ -733,7 +733,7 @@ func (x *c04) regionRule(rule string, names []string) {
 			}
 			// number of iterations = cdiv12(size)
 			if bad == "" && !(lf.TripsOK && lf.Trips.equal(pCdiv(12, polyAtom("size")))) {
-				bad = "the number of pages mapped is not cdiv(size, 4096)"
+				bad = "the number of pages mapped is not cdiv(size, 4096)" + fmt.Sprintf(" (trip count %v, known %v)", lf.Trips, lf.TripsOK)
 			}
 			// The polynomial forms are over the integers. The page count is also
 			// computed in unsigned machine arithmetic: a subtraction in it must not
